@@ -220,6 +220,27 @@ func ColexSubsets(n, k int) [][]int {
 	return r
 }
 
+// ColexNext replaces the k-subset c of the naturals (strictly increasing, k >= 1)
+// by its successor in colex order, the textbook step: the lowest element that
+// has room above it (c[j]+1 < c[j+1]; the top element always has) grows by one
+// and everything below it becomes 0, 1, ..., j-1.  It returns j and the number
+// of positions below j whose value the step changed.  Callers certify every
+// member of a walk with RankBig (a strictly increasing sequence whose colex
+// rank is i IS the i-th set), so nothing rests on this function alone.
+func ColexNext(c []uint64) (j, rewritten int) {
+	k := len(c)
+	for j = 0; j < k-1 && c[j]+1 >= c[j+1]; j++ {
+	}
+	c[j]++
+	for i := 0; i < j; i++ {
+		if c[i] != uint64(i) {
+			rewritten++
+			c[i] = uint64(i)
+		}
+	}
+	return j, rewritten
+}
+
 // PascalRow returns row n of Pascal's triangle by additions only.
 func PascalRow(n int) []*big.Int {
 	row := []*big.Int{big.NewInt(1)}
@@ -324,6 +345,47 @@ func SelfCheck() error {
 				got := UnrankBig(big.NewInt(int64(idx)), k)
 				if fmt.Sprint(got) != fmt.Sprint(u) {
 					return fmt.Errorf("UnrankBig(%d,%d)=%v, mask order says %v", idx, k, got, s)
+				}
+			}
+		}
+	}
+	// the successor walk against the mask order and, for many elements, against the binary-search unrank
+	for n := 1; n <= 13; n++ {
+		for k := 1; k <= n; k++ {
+			subs := ColexSubsets(n, k)
+			cur := make([]uint64, k)
+			for i := range cur {
+				cur[i] = uint64(i)
+			}
+			for idx, s := range subs {
+				if idx > 0 {
+					ColexNext(cur)
+				}
+				for i, v := range s {
+					if cur[i] != uint64(v) {
+						return fmt.Errorf("ColexNext walk (%d,%d) position %d = %v, mask order says %v", n, k, idx, cur, s)
+					}
+				}
+			}
+		}
+	}
+	for _, k := range []int{1, 2, 63, 64, 65, 66, 67, 129, 130, 200} {
+		cur := make([]uint64, k)
+		for i := range cur {
+			cur[i] = uint64(i)
+		}
+		for idx := 0; idx < 700; idx++ {
+			if idx > 0 {
+				ColexNext(cur)
+			}
+			if idx%7 == 0 || idx < 2*k+8 && idx > k-3 && idx%2 == 0 {
+				if r := RankBig(cur); !r.IsInt64() || r.Int64() != int64(idx) {
+					return fmt.Errorf("ColexNext walk k=%d position %d = %v has rank %v", k, idx, cur, r)
+				}
+			}
+			if idx%97 == 0 || idx == k+1 {
+				if got := UnrankBig(big.NewInt(int64(idx)), k); fmt.Sprint(got) != fmt.Sprint(cur) {
+					return fmt.Errorf("ColexNext walk k=%d position %d = %v, UnrankBig says %v", k, idx, cur, got)
 				}
 			}
 		}
